@@ -414,12 +414,21 @@ def r5_2(ctx):
     for name in ("pad", "pad_left"):
         f = m.fn(f"Text.{name}")
         cnt = f.params[1]
-        comps = [x for x in walk_local(f.node) if isinstance(x, ast.ListComp) and isinstance(x.elt, ast.Call) and norm(x.elt.func) in ("_Span", "Span")]
+        # (comprehension, name of the shift amount inside it): in the method itself, or in a same-class helper called as
+        # self.<helper>(count) - then the amount is the helper's parameter that receives `count`
+        comps = [(x, cnt) for x in walk_local(f.node) if isinstance(x, ast.ListComp) and isinstance(x.elt, ast.Call) and norm(x.elt.func) in ("_Span", "Span")]
+        for c0 in walk_local(f.node):
+            if isinstance(c0, ast.Call) and isinstance(c0.func, ast.Attribute) and isinstance(c0.func.value, ast.Name) and c0.func.value.id == "self" and f.cls is not None:
+                h = f.cls.method(c0.func.attr)
+                if h is not None and h is not f and len(c0.args) == 1 and norm(c0.args[0]) == cnt and len(h.params) == 2:
+                    for x in walk_local(h.node):
+                        if isinstance(x, ast.ListComp) and isinstance(x.elt, ast.Call) and norm(x.elt.func) in ("_Span", "Span") and isinstance(m.parent_of.get(x), ast.Assign) and norm(m.parent_of[x].targets[0]) == "self._spans[:]":
+                            comps.append((x, h.params[1]))
         ok = bool(comps)
-        for c in comps:
+        for c, amount in comps:
             s, e = c.elt.args[0], c.elt.args[1]
             tv = [norm(t) for t in c.generators[0].target.elts] if isinstance(c.generators[0].target, ast.Tuple) else []
-            good = len(tv) == 3 and norm(s) == f"{tv[0]} + {cnt}" and norm(e) == f"{tv[1]} + {cnt}" and norm(c.elt.args[2]) == tv[2] and norm(c.generators[0].iter) == "self._spans" and not c.generators[0].ifs
+            good = len(tv) == 3 and norm(s) == f"{tv[0]} + {amount}" and norm(e) == f"{tv[1]} + {amount}" and norm(c.elt.args[2]) == tv[2] and norm(c.generators[0].iter) == "self._spans" and not c.generators[0].ifs
             n += 1
             ctx.check(good, f.fq, short(c), f"{m.relpath}:{c.lineno}", f"every span shifted by `{cnt}`, the number of characters inserted on the left",
                       f"{name}: spans are not all shifted by exactly `{cnt}` (the left padding): styles slide off their characters")
@@ -542,6 +551,7 @@ def r5_4(ctx):
     ctx.rule("R5.4", "span order is precedence and is preserved: every rewrite of a span list in text.py is an order-preserving map/filter of the old list or an in-order extend; divide() re-establishes the source order with a sort keyed by the position of the originating span; Text.render applies spans in list order")
     m = ctx.repo.mod(TEXT_MOD)
     n = 0
+    divide_family = {g_.fq for g_ in _divide_family(ctx)}
     for f in _text_functions(ctx):
         for x in walk_local(f.node):
             # slice-assign rewrites:  X._spans[:] = [...]
@@ -549,7 +559,7 @@ def r5_4(ctx):
                 n += 1
                 v = x.value
                 where = f"{m.relpath}:{x.lineno}"
-                if isinstance(v, ast.ListComp) and f.qualname == "Text.divide" and isinstance(v.generators[0].iter, ast.Name):
+                if isinstance(v, ast.ListComp) and f.fq in divide_family and isinstance(v.generators[0].iter, (ast.Name, ast.Call)):
                     continue  # the per-line rebuild from the index-sorted pair list is judged by _divide_order below
                 if isinstance(v, ast.ListComp):
                     it = v.generators[0].iter
@@ -558,15 +568,17 @@ def r5_4(ctx):
                               f"spans are rebuilt from `{norm(it)}`, which is not the old span list in its own order (reversed/sorted input changes which style wins)")
                 elif isinstance(v, ast.Attribute) and v.attr == "_spans":
                     ctx.ok(where, "spans copied in order from another Text", f.fq)
+                elif isinstance(v, ast.Name) and _built_in_order(f, v.id):
+                    ctx.ok(where, f"`{v.id}` is filled by appends inside one in-order loop over the old span list (order-preserving map/filter)", f.fq)
                 else:
                     ctx.violation(f.fq, short(x), where, f"spans replaced by `{short(v)}`, whose order relative to the old list is not evident")
             if isinstance(x, ast.Call) and isinstance(x.func, ast.Attribute) and x.func.attr in ("sort", "reverse") and "_spans" in norm(x.func.value):
                 n += 1
                 where = f"{m.relpath}:{x.lineno}"
-                if f.qualname == "Text.divide" and x.func.attr == "sort":
+                if f.fq in divide_family and x.func.attr == "sort":
                     continue  # judged by _divide_order
                 ctx.violation(f.fq, short(x), where, "a span list is sorted/reversed in place: precedence between overlapping styles changes")
-            if isinstance(x, ast.Call) and call_name(x) in ("sorted", "reversed") and x.args and "_spans" in norm(x.args[0]) and f.qualname not in ("Text.divide",):
+            if isinstance(x, ast.Call) and call_name(x) in ("sorted", "reversed") and x.args and "_spans" in norm(x.args[0]) and f.fq not in divide_family:
                 n += 1
                 ctx.violation(f.fq, short(x), f"{m.relpath}:{x.lineno}", "a span list is consumed in sorted/reversed order")
     _divide_order(ctx, m.fn("Text.divide"))
@@ -625,8 +637,61 @@ def divide(self):
 """
 
 
+def _built_in_order(f, name: str) -> bool:
+    """local list `name` starts empty and is only appended to inside ONE `for x in <obj>._spans` loop (no nesting in other
+    loops), each time with the loop variable or a Span built from its fields - an order-preserving map/filter"""
+    aliases = alias_map(f.node)
+    inits = [x for x in walk_local(f.node) if isinstance(x, (ast.Assign, ast.AnnAssign)) and norm(x.targets[0] if isinstance(x, ast.Assign) else x.target) == name]
+    if len(inits) != 1 or inits[0].value is None or norm(inits[0].value) != "[]":
+        return False
+    loops = [x for x in walk_local(f.node) if isinstance(x, ast.For) and isinstance(x.iter, ast.Attribute) and x.iter.attr == "_spans" and isinstance(x.target, ast.Name)]
+    apps = [c for c in walk_local(f.node) if isinstance(c, ast.Call) and norm(expand_alias(c.func, aliases)) in (f"{name}.append",)]
+    others = [c for c in walk_local(f.node) if isinstance(c, ast.Call) and norm(expand_alias(c.func, aliases)).startswith(f"{name}.") and c not in apps]
+    if len(loops) != 1 or not apps or others:
+        return False
+    lp = loops[0]
+    inside = {id(x) for x in ast.walk(lp)}
+    nested = [x for x in ast.walk(lp) if isinstance(x, (ast.For, ast.While)) and x is not lp]
+    if nested or any(id(c) not in inside for c in apps):
+        return False
+    var = lp.target.id
+    for c in apps:
+        a = c.args[0] if len(c.args) == 1 else None
+        if a is None:
+            return False
+        if isinstance(a, ast.Name) and a.id == var:
+            continue
+        if isinstance(a, ast.Call) and norm(expand_alias(a.func, aliases)) in ("Span", "_Span") and any(isinstance(x, ast.Name) and x.id == var for x in ast.walk(a)):
+            continue
+        return False
+    return True
+
+
+def _divide_family(ctx):
+    """Text.divide and the same-class helpers it calls (a long function split in two is the same subject)."""
+    m = ctx.repo.mod(TEXT_MOD)
+    dv = m.fn("Text.divide")
+    fam = [dv]
+    for c in walk_local(dv.node):
+        if isinstance(c, ast.Call) and isinstance(c.func, ast.Attribute) and isinstance(c.func.value, ast.Name) and c.func.value.id == "self":
+            h = dv.cls.method(c.func.attr) if dv.cls is not None else None
+            if h is not None and h not in fam and h.qualname not in ("Text.copy", "Text.blank_copy"):
+                fam.append(h)
+    return fam
+
+
+def _divide_spans_fn(ctx):
+    """the member of the divide family that distributes the spans (mentions self._spans beyond the emptiness test)"""
+    fam = _divide_family(ctx)
+    for f in fam:
+        if any(isinstance(x, ast.Call) and norm(x.func) == "enumerate" and x.args and norm(x.args[0]) == "self._spans" for x in walk_local(f.node)) or any(isinstance(x, (ast.For, ast.comprehension)) and norm(x.iter) == "self._spans" for x in ast.walk(f.node)):
+            return f
+    return fam[0]
+
+
 def _divide_order(ctx, f):
     """Text.divide: every line's spans come out in the order of the source list."""
+    f = _divide_spans_fn(ctx)
     m = f.module
     ex = _value_keyed_span_maps(ast.parse(_VALUE_KEYED_EXAMPLE))
     if len(ex) != 2:
@@ -675,6 +740,7 @@ def _divide_order(ctx, f):
     for c in apps:
         ctx.check(norm(c.args[0].elts[0]) == idx, f.fq, short(c), f"{m.relpath}:{c.lineno}", "clipped span paired with the index of its source span", f"`{short(c)}` pairs the clipped span with `{norm(c.args[0].elts[0])}`, not with the source index `{idx}`")
     srt = [x for x in walk_local(f.node) if isinstance(x, ast.Call) and isinstance(x.func, ast.Attribute) and x.func.attr == "sort" and norm(x.func.value) == L]
+    srt += [x for x in walk_local(f.node) if isinstance(x, ast.Call) and norm(x.func) == "sorted" and x.args and norm(x.args[0]) == L]
     ok = len(srt) == 1
     if ok:
         key = next((k.value for k in srt[0].keywords if k.arg == "key"), None)
@@ -688,11 +754,13 @@ def _divide_order(ctx, f):
         ok = (kn is None or kn == "itemgetter(0)" or (isinstance(key, ast.Lambda) and isinstance(key.body, ast.Subscript) and norm(key.body.slice) == "0" and norm(key.body.value) == key.args.args[0].arg)) and (rev is None or norm(rev) == "False")
     ctx.check(ok, f.fq, short(srt[0]) if srt else f"{L}.sort", f"{m.relpath}:{srt[0].lineno}" if srt else f.where, "each line's pairs are sorted ascending by source index",
               "divide(): the per-line span sort is not ascending by the position of the originating span in the source list: overlapping styles change precedence after wrapping/splitting")
-    rebuild = [x for x in walk_local(f.node) if isinstance(x, ast.Assign) and isinstance(x.value, ast.ListComp) and "_spans" in norm(x.targets[0]) and isinstance(x.value.generators[0].iter, ast.Name)]
+    rebuild = [x for x in walk_local(f.node) if isinstance(x, ast.Assign) and isinstance(x.value, ast.ListComp) and "_spans" in norm(x.targets[0]) and isinstance(x.value.generators[0].iter, (ast.Name, ast.Call))]
     okr = False
     for x in rebuild:
         gen = x.value.generators[0]
-        if gen.iter.id == L and len(x.value.generators) == 1 and not gen.ifs and isinstance(gen.target, ast.Tuple) and len(gen.target.elts) == 2 and norm(x.value.elt) == norm(gen.target.elts[1]) and srt and x.lineno > srt[0].lineno:
+        from_sorted_list = isinstance(gen.iter, ast.Name) and gen.iter.id == L and srt and isinstance(srt[0].func, ast.Attribute) and x.lineno > srt[0].lineno
+        from_sorted_call = bool(srt) and gen.iter is srt[0]
+        if (from_sorted_list or from_sorted_call) and len(x.value.generators) == 1 and not gen.ifs and isinstance(gen.target, ast.Tuple) and len(gen.target.elts) == 2 and norm(x.value.elt) == norm(gen.target.elts[1]):
             okr = True
     ctx.check(okr, f.fq, short(rebuild[0]) if rebuild else "line._spans[:] = ...", f"{m.relpath}:{rebuild[0].lineno}" if rebuild else f.where, "the line's spans are the sorted pairs' spans, in that order",
               "divide(): the line's span list is not rebuilt, in order and unfiltered, from the index-sorted pairs")
